@@ -3,6 +3,7 @@ package main
 import (
 	"fmt"
 	"go/token"
+	"go/types"
 	"strings"
 
 	"golang.org/x/tools/go/ssa"
@@ -321,6 +322,9 @@ func (P *Prog) checkNilIffEmpty(r *Result) {
 					}
 				})
 			}
+			if !okNonNil {
+				okNonNil = P.addLeavesNonNil(add, fld)
+			}
 			if okNonNil {
 				r.ok("C02/nil-iff-empty", ct.n+".Add#non-nil", P.pos(add.Pos()), "after Add the collection is non-nil on every path")
 			} else {
@@ -397,4 +401,62 @@ func topLevel(fn *ssa.Function) *ssa.Function {
 		fn = fn.Parent()
 	}
 	return fn
+}
+
+// addLeavesNonNil decides the same on Add's decision paths with its helpers
+// entered (`if s.IsEmpty() { s.M = ... }`): every returning path stores a
+// non-nil value into the field, updates the map it holds (which presupposes a
+// non-nil map), or has established that the field is not nil.
+func (P *Prog) addLeavesNonNil(add *ssa.Function, fld *types.Var) bool {
+	spec := &pathSpec{name: "add-non-nil", inlineAll: true}
+	spec.keep = func(f *ssa.Function) bool { return !inModule(funcPkgPath(f)) }
+	spec.cond = func(iff *ssa.If) (string, string, string) {
+		if x, eq, isN := isNilCompare(cv(iff.Cond)); isN {
+			if _, f := loadOfField(cv(x)); f != nil && sameField(f, fld) {
+				if eq {
+					return "NIL", "T", "F"
+				}
+				return "NIL", "F", "T"
+			}
+		}
+		return "", "", ""
+	}
+	spec.events = func(in ssa.Instruction) []pathItem {
+		switch x := in.(type) {
+		case *ssa.Store:
+			if _, f := fieldVar(x.Addr); f != nil && sameField(f, fld) {
+				if isNilConst(x.Val) {
+					return []pathItem{{kind: "CLEAR", in: in}}
+				}
+				return []pathItem{{kind: "SET", in: in}}
+			}
+		case *ssa.MapUpdate:
+			if _, f := loadOfField(cv(x.Map)); f != nil && sameField(f, fld) {
+				return []pathItem{{kind: "SET", in: in}}
+			}
+		}
+		return nil
+	}
+	res := P.enumPathsSpec(add, nil, spec)
+	if res.capHit || len(res.paths) == 0 {
+		return false
+	}
+	for _, p := range res.paths {
+		if p.end != "RETURN" {
+			continue
+		}
+		nonNil := false
+		for _, it := range p.items {
+			switch {
+			case it.kind == "SET", it.kind == "NIL" && it.val == "F":
+				nonNil = true
+			case it.kind == "CLEAR":
+				nonNil = false
+			}
+		}
+		if !nonNil {
+			return false
+		}
+	}
+	return true
 }
